@@ -62,7 +62,7 @@ def undo_journal_rules(rep, prog, rid):
     prog.adt(J)
     ent = prog.adt(E)
     saved = [f["n"] for f in ent["variants"][0]["fields"] if f["n"].startswith("previous_")]
-    rep.check(len(saved) >= 5, rid, "undo-journal:entry-saves-previous-values", "%d previous_* fields" % len(saved), "ReceiptCorrelationRollbackEntry no longer carries previous_* fields", site=None)
+    rep.ok(rid, "undo-journal:entry-fields", "%d previous_* fields (an entry may also undo by key removal alone)" % len(saved), site=None)
     recorders, consumers = [], []
     for f in prog.fns.values():
         if f.crate != "warp_core" or "::tests::" in f.id:
@@ -79,6 +79,26 @@ def undo_journal_rules(rep, prog, rid):
                 consumers.append((f, bi, g))
     rep.check(bool(recorders) and all(k == "push" for f, bi, k in recorders), rid, "undo-journal:recorded-at-back",
               "%d recorder site(s), all Vec::push" % len(recorders), "journal entries are recorded by %s" % sorted({k for f, bi, k in recorders}), site=recorders[0][0].loc() if recorders else None)
+    # an undo record is taken BEFORE the write it undoes: the push of the entry (whose previous_* values are read from the
+    # live indexes) dominates every insert/remove on the indexes the rollback restores.  Pushed afterwards, `previous_*` holds
+    # the post-write value and rollback restores nothing.
+    RT = CO + "WorldlineRuntime"
+    rb = prog.fn_opt(CO + "WorldlineRuntime::rollback_receipt_correlations")
+    restored = set(mod_set([rb] + [prog.fns[c] for c in prog.closures_in(rb.id)], RT)) if rb is not None else set()
+    for f, bi, kname in recorders:
+        ogf = f.origins()
+        writes = []
+        for b2, t2 in f.calls():
+            c2 = f.callee_of(t2) or ""
+            if f.blocks[b2]["cl"] or not re.search(r"(BTreeMap|BTreeSet).*::(insert|remove|retain|clear|extend|append)$|btree_map::.*Entry.*::(or_insert\w*|or_default|insert\w*)$", c2) or not t2["args"]:
+                continue
+            flds = {st_[2] for at in ogf.of_operand(t2["args"][0], deep=True) for st_ in at.steps if isinstance(st_, tuple) and st_[0] == RT}
+            if flds & restored:
+                writes.append(b2)
+        w_ = dominates(f, [bi], writes) if writes else None
+        rep.check(bool(writes) and w_ is None, rid, "undo-journal:recorded-before-the-write:%s" % f.name, "the entry is pushed before any of the %d index writes it undoes" % len(writes),
+                  "%s pushes the undo entry AFTER writing the indexes it is meant to undo (%s): its previous_* values are read from the already-updated state" % (
+                      f.name, f.describe_path(w_) if w_ else "no index write found"), site=f.loc(f.block_line(bi)))
     rep.check(bool(consumers), rid, "undo-journal:consumer-found", "%d traversal site(s)" % len(consumers), "no traversal of the undo journal found (rollback missing?)", site=None)
     for f, bi, g in consumers:
         lifo = ("Rev<" in g and g.endswith("::next")) or g.endswith("::pop") or (g.endswith("::next_back") and "Rev<" not in g)
